@@ -39,6 +39,22 @@ Theorem C07_streams_function_of_ordinal : forall s k j,
 Proof. exact streams_function_of_ordinal. Qed.
 Print Assumptions C07_streams_function_of_ordinal.
 
+(* the whole stream table at once: over all remembered jobs, move and engine streams together,
+   no stream identity occurs twice *)
+Theorem C07_all_streams_nodup : forall s, RI s -> NoDup (all_streams s).
+Proof. exact all_streams_nodup. Qed.
+Print Assumptions C07_all_streams_nodup.
+
+(* a stop at any point is transparent for the stream assignment: forget the [lost] most recent
+   jobs, restart with the repaired set_rgen and issue jobs on as many ensembles as the lost ones
+   had - the state (seed, entropy, spawn counter, whole table) is exactly the one before the
+   stop, i.e. every re-issued job draws from the streams of the job it replaces *)
+Theorem C07_restart_transparent : forall s lost,
+  RI s -> lost <= length (issued s) ->
+  rrun (rstep s (RRestart lost true)) (map repick (skipn (length (issued s) - lost) (issued s))) = s.
+Proof. exact restart_transparent. Qed.
+Print Assumptions C07_restart_transparent.
+
 (* the ORIGINAL set_rgen (before fix 439cda4) is refuted: two concurrent jobs after a
    multi-worker restart get the same stream, which does not derive from the seed *)
 Theorem C07_original_restart_refuted :
@@ -61,3 +77,15 @@ Example C07_example :
   RI C07_example_state /\
   all_streams C07_example_state = [(7, [0; 0]); (7, [0; 0; 0]); (7, [1; 0]); (7, [1; 1]); (7, [1; 0; 0]); (7, [1; 1; 0])].
 Proof. split; [unfold C07_example_state; apply C07_invariant; reflexivity|reflexivity]. Qed.
+
+(* premises of C07_restart_transparent are met by a non-trivial state, and the statement computes *)
+Example C07_example_restart :
+  let s := rrun (rinit 7) [RPick 1; RPick 2; RPick 1; RPick 2] in
+  RI s /\ 2 <= length (issued s) /\
+  map repick (skipn (length (issued s) - 2) (issued s)) = [RPick 1; RPick 2] /\
+  rrun (rstep s (RRestart 2 true)) [RPick 1; RPick 2] = s /\
+  rrun (rstep s (RRestart 2 false)) [RPick 1; RPick 2] <> s.
+Proof.
+  cbv zeta. split; [apply C07_invariant; reflexivity|]. split; [cbn; lia|]. split; [reflexivity|].
+  split; [reflexivity|]. vm_compute. discriminate.
+Qed.
